@@ -21,3 +21,8 @@ func VerifVerifyVRFShare(r *Round, vrfs *round.VRFShare, blsMsg string, dkg *bls
 func (mc *Chain) VerifProcessVerifyBlock(ctx context.Context, b *block.Block) error {
 	return mc.processVerifyBlock(ctx, b)
 }
+
+// VerifHandleVerificationTicketMessage calls the unexported handleVerificationTicketMessage.
+func (mc *Chain) VerifHandleVerificationTicketMessage(ctx context.Context, msg *BlockMessage) {
+	mc.handleVerificationTicketMessage(ctx, msg)
+}
